@@ -564,19 +564,101 @@ fn simplify_case<F: Backend>(cx: &mut Cx, c: &Case, label: &str) {
     }
 }
 
+/// Matrix entries far below f32::EPSILON are still coefficients: at a position
+/// with a coordinate of 2^30 an entry of 2^-27 moves the transformed position by
+/// 8.  One function per axis (so that every value is exact in f32), two sparse
+/// matrices with such entries, a far position; point, box (degenerate and a
+/// proper box reaching the far coordinate), float-slice and grad-slice
+/// evaluation through the Shape API, VM and JIT, against the f64 transform.
+fn tiny_coefficients<F: Backend>(cx: &mut Cx, sub: &mut u64) {
+    let t = 2f32.powi(-27);
+    let mats: Vec<(&str, Matrix4<f32>)> = vec![
+        ("x' = x + 2^-27 y", {
+            let mut m = Matrix4::identity();
+            m[(0, 1)] = t;
+            m
+        }),
+        ("x' = x - 2^-26 z, y' = y + 2^-28 x, z' = z + 2^-27 y", {
+            let mut m = Matrix4::identity();
+            m[(0, 2)] = -2.0 * t;
+            m[(1, 0)] = t / 2.0;
+            m[(2, 1)] = t;
+            m
+        }),
+    ];
+    let far = 2f32.powi(30);
+    let positions: [[f32; 3]; 3] = [[1.0, far, -far / 2.0], [far, -2.0, far], [-far, far, 3.0]];
+    for (axis, var) in [Var::X, Var::Y, Var::Z].into_iter().enumerate() {
+        let tree = Tree::from(var);
+        let mut ctx = Context::new();
+        let root = ctx.import(&tree);
+        let Ok(f) = crate::evalkit::build::<F>(&ctx, &[root]) else { continue };
+        let shape = Shape::new_raw(f);
+        let sv = ShapeVars::<f32>::new();
+        for (mname, m) in &mats {
+            for p in positions {
+                let s = *sub;
+                *sub += 1;
+                if !cx.case(s) {
+                    continue;
+                }
+                cx.add("cases", 1);
+                cx.add("tiny_coefficient_cases", 1);
+                let want = transformed(p, &Some(*m))[axis];
+                let desc = || json!({"backend": F::NAME, "function": format!("{var}"), "matrix": mname, "position": format!("{p:?}")});
+                let ok = |g: f64| (g - want).abs() <= 1e-6 * want.abs().max(1.0);
+                cx.add("evals", 4);
+                // point
+                match guard(|| {
+                    let tp = shape.ez_point_tape();
+                    let mut e = Shape::<F>::new_point_eval();
+                    e.eval_with_transform_and_vars(&tp, p[0], p[1], p[2], m, &sv).map(|(v, _)| v).map_err(|e| format!("{e}"))
+                }) {
+                    Ok(Ok(g)) if ok(g as f64) => cx.add("value_checks", 1),
+                    other => cx.violation(format!("{}-point applies the transform wrongly (tiny matrix entries)", F::NAME), desc(), format!("got {other:?}, expected {want}")),
+                }
+                // degenerate box, and a box that reaches from 0 to the far position along every axis
+                for (kind, lo) in [("degenerate box", p), ("box from the origin to the position", [0.0, 0.0, 0.0])] {
+                    let iv = |a: f32, b: f32| Interval::new(a.min(b), a.max(b));
+                    match guard(|| {
+                        let ti = shape.ez_interval_tape();
+                        let mut e = Shape::<F>::new_interval_eval();
+                        e.eval_with_transform_and_vars(&ti, iv(lo[0], p[0]), iv(lo[1], p[1]), iv(lo[2], p[2]), m, &sv).map(|(v, _)| v).map_err(|e| format!("{e}"))
+                    }) {
+                        Ok(Ok(i)) => {
+                            let tol = 1e-6 * want.abs().max(1.0);
+                            let encloses = i.has_nan() || (i.lower() as f64 <= want + tol && i.upper() as f64 >= want - tol);
+                            let exact = kind != "degenerate box" || i.has_nan() || (ok(i.lower() as f64) && ok(i.upper() as f64));
+                            if encloses && exact {
+                                cx.add("value_checks", 1);
+                            } else {
+                                cx.violation(format!("{}-interval applies the transform wrongly (tiny matrix entries)", F::NAME), desc(), format!("{kind}: got [{}, {}], the value at the position is {want}", i.lower(), i.upper()));
+                            }
+                        }
+                        other => cx.violation(format!("{}-interval failed (tiny matrix entries)", F::NAME), desc(), format!("{other:?}")),
+                    }
+                }
+            }
+        }
+    }
+}
+
 impl Check for C14 {
     fn id(&self) -> &'static str {
         "C14"
     }
     fn units(&self, _tier: Tier) -> usize {
-        configs().len()
+        configs().len() + 1
     }
     fn unit_label(&self, _tier: Tier, unit: usize) -> String {
+        if unit == configs().len() {
+            return "tiny matrix entries at far positions".into();
+        }
         format!("{:?}", configs()[unit])
     }
     fn meta(&self, tier: Tier) -> Meta {
         Meta {
-            rule: "case = (set of variables, operand order, supply order, extra variable?); functions sum(w_i * v_i) with distinct dyadic weights over EVERY subset of {X,Y,Z} united with k free variables for k in {0,1,2,3,4,30}; written in EVERY operand order while the total is <= 6 (thorough; quick <= 5), 12 rotations/reversals above, so first-encounter numbering takes every permutation; ShapeVars filled in both orders, with and without an unrelated extra variable; evaluated through the Shape API by point, interval (degenerate box), float-slice (scalar variables and variable arrays; the array of an unused extra variable with the batch length, empty and longer) and grad-slice evaluators of VM and JIT with transform in {none, identity, affine, projective}; one free variable at a time removed => the error must name it (point, float-slice, bind); after a simplification that drops a variable the variable map must be unchanged and values still right; oracle: explicit map Var -> value at the f64-transformed position, exact (dyadic data; 1e-5 relative under the genuinely projective matrix, whose w depends on x and z); the grad-slice partials must equal the f64 dual-number derivative through the homogeneous transform".into(),
+            rule: "case = (set of variables, operand order, supply order, extra variable?); functions sum(w_i * v_i) with distinct dyadic weights over EVERY subset of {X,Y,Z} united with k free variables for k in {0,1,2,3,4,30}; written in EVERY operand order while the total is <= 6 (thorough; quick <= 5), 12 rotations/reversals above, so first-encounter numbering takes every permutation; ShapeVars filled in both orders, with and without an unrelated extra variable; evaluated through the Shape API by point, interval (degenerate box), float-slice (scalar variables and variable arrays; the array of an unused extra variable with the batch length, empty and longer) and grad-slice evaluators of VM and JIT with transform in {none, identity, affine, projective}; one free variable at a time removed => the error must name it (point, float-slice, bind); after a simplification that drops a variable the variable map must be unchanged and values still right; oracle: explicit map Var -> value at the f64-transformed position, exact (dyadic data; 1e-5 relative under the genuinely projective matrix, whose w depends on x and z); the grad-slice partials must equal the f64 dual-number derivative through the homogeneous transform; plus (round 10) matrices with entries 2^-26..2^-28 (far below f32::EPSILON) at positions with coordinates +-2^30: point, degenerate box and a box from the origin to the position, per axis, VM and JIT".into(),
             bounds: match tier {
                 Tier::Quick => "all operand orders for <= 5 variables".into(),
                 Tier::Thorough => "all operand orders for <= 6 variables".into(),
@@ -590,6 +672,12 @@ impl Check for C14 {
         }
     }
     fn run_unit(&self, tier: Tier, unit: usize, cx: &mut Cx) {
+        if unit == configs().len() {
+            let mut sub = 0u64;
+            tiny_coefficients::<VmFunction>(cx, &mut sub);
+            tiny_coefficients::<JitFunction>(cx, &mut sub);
+            return;
+        }
         let cfg = configs()[unit].clone();
         let mut all: Vec<Var> = cfg.axes.clone();
         for i in 0..cfg.free {
